@@ -48,6 +48,10 @@ type Stream struct {
 	rng         uint64 // secondary generator for modes 2 and 4 (seeded from one tape draw)
 	ErrAt       int    // absolute offset at which Read fails (-1: never)
 	EOFWithData bool   // deliver the last bytes together with io.EOF
+	ErrWithData bool   // deliver the bytes in front of ErrAt together with the error
+	ZeroPm      int    // per-mille chance of a read that returns 0, nil (never three in a row)
+	zeros       int
+	ZeroReads   int
 	Reads       int
 	after       int
 	MaxAfter    int
@@ -81,6 +85,13 @@ func (s *Stream) Read(p []byte) (int, error) {
 		s.fin()
 		return 0, io.EOF
 	}
+	if s.ZeroPm > 0 && s.zeros < 2 && int(s.next()%1000) < s.ZeroPm {
+		// legal for an io.Reader, if discouraged: nothing read, no error
+		s.zeros++
+		s.ZeroReads++
+		return 0, nil
+	}
+	s.zeros = 0
 	n := len(p)
 	switch s.Mode {
 	case 1:
@@ -110,6 +121,10 @@ func (s *Stream) Read(p []byte) (int, error) {
 	}
 	copy(p, s.Data[s.Pos:s.Pos+n])
 	s.Pos += n
+	if s.ErrWithData && s.ErrAt >= 0 && s.Pos == s.ErrAt {
+		s.Done = true
+		return n, ErrInjected
+	}
 	if s.EOFWithData && s.Pos == len(s.Data) && (s.ErrAt < 0 || s.ErrAt > s.Pos) {
 		s.Done = true
 		return n, io.EOF
